@@ -286,7 +286,13 @@ func ReduceMinMax(e1 CValueEnclosure, e2 CValueEnclosure, isMin bool) (CValueEnc
 
 	if e1.Dtype == e2.Dtype {
 		if e1.Dtype == SS_DT_STRING {
-			return CValueEnclosure{Dtype: e1.Dtype, CVal: GetMinMaxString(e1.CVal.(string), e2.CVal.(string), isMin)}, nil
+			// the dtype byte and the value of a min/max come from the (un-checksummed) .sst file: do not trust them to agree
+			s1, ok1 := e1.CVal.(string)
+			s2, ok2 := e2.CVal.(string)
+			if !ok1 || !ok2 {
+				return e1, fmt.Errorf("ReduceMinMax: value of type %T / %T does not match the string dtype", e1.CVal, e2.CVal)
+			}
+			return CValueEnclosure{Dtype: e1.Dtype, CVal: GetMinMaxString(s1, s2, isMin)}, nil
 		} else {
 			if isMin {
 				return Reduce(e1, e2, Min)
